@@ -79,10 +79,17 @@ class Ch(str):
     __slots__ = ()
 
 
+class Pos(int):
+    """a position inside a text, counted in characters (what `find` answered)"""
+
+
 class Hint:
     """a length used as a capacity hint: it may be added to and handed to `with_capacity` / `reserve`, nothing else (any other use
     is refused, so the result cannot depend on it)"""
-    __slots__ = ()
+    __slots__ = ("of",)
+
+    def __init__(self):
+        self.of = None
 
 
 class _Return(Exception):
@@ -451,6 +458,8 @@ class Interp:
             return str(args[0]) if not isinstance(args[0], Ch) or last != "from" else str(args[0])
         if last == "Some" and len(args) == 1:
             return ("Some", args[0])
+        if last in ("Borrowed", "Owned") and "Cow" in path and len(args) == 1 and isinstance(args[0], str):
+            return str(args[0])      # a text, borrowed or owned
         nb = self.local_fn(path)
         if nb is not None:
             self.depth += 1
@@ -502,7 +511,22 @@ class Interp:
             if name == "is_empty":
                 return recv == ""
             if name == "len" and not args:
-                return Hint()
+                h = Hint()
+                h.of = recv          # (whose length it is: `s.split_at(s.len())` is (s, ""))
+                return h
+            if name == "find" and len(args) == 1 and isinstance(args[0], tuple) and args[0] and args[0][0] in ("closure", "fn"):
+                # the position of the first character the predicate holds for (positions are counted in characters here, and only
+                # handed back to `split_at` / slicing of the same text)
+                for i_, c_ in enumerate(recv):
+                    if self.truth(self.apply(args[0], [Ch(c_)], n), n):
+                        return ("Some", Pos(i_))
+                return ("None",)
+            if name == "split_at" and len(args) == 1:
+                if isinstance(args[0], Pos):
+                    return (recv[:int(args[0])], recv[int(args[0]):])
+                if isinstance(args[0], Hint) and getattr(args[0], "of", None) == recv:
+                    return (recv, "")
+                raise Unsupported("split_at at a position that is not one found in this text", n.get("sp"))
             if name in ("reserve", "reserve_exact") and len(args) == 1 and isinstance(args[0], (Hint, int)) and not isinstance(args[0], bool):
                 return ()
             if name in ("to_string", "to_owned", "clone", "as_str", "as_ref", "borrow", "into", "deref", "as_mut_str"):
@@ -576,6 +600,8 @@ class Interp:
                 return ("Some", self.apply(args[0], [recv[1]], n)) if recv[0] == "Some" else recv
             if name in ("copied", "cloned", "as_ref"):
                 return recv
+            if name == "unwrap_or" and len(args) == 1:
+                return recv[1] if recv[0] == "Some" else args[0]
         raise Unsupported(f"method {name} on an unmodelled value", n.get("sp"))
 
 
